@@ -108,6 +108,94 @@ def rule_acceptor(ctx: Ctx) -> None:
     ctx.floor("C12-3", 4)
 
 
+def _same_block(fn, a: ast.stmt, b: ast.stmt) -> bool:
+    """a and b are siblings in one statement list (no control flow can separate them)"""
+    for n in ast.walk(fn.node):
+        for field in ("body", "orelse", "finalbody"):
+            blk = getattr(n, field, None)
+            if isinstance(blk, list) and any(x is a for x in blk) and any(x is b for x in blk):
+                return True
+    return False
+
+
+def rule_acceptor_pairing(ctx: Ctx) -> None:
+    """Single-decree Paxos: accepted <= promised after every accept; an accept tally counts accepts only; ballot pairs keep their halves together."""
+    prog = ctx.prog
+    c = prog.cls(PAX, "PaxosNode")
+    n_acc = 0
+    for m in c.methods.values():
+        if m.name == "__init__":
+            continue
+        ab = [s for s in walk_stmts(m.node.body) if isinstance(s, ast.Assign) and path_of(s.targets[0]) == "self._accepted_ballot"]
+        for st in ab:
+            n_acc += 1
+            b = path_of(st.value)
+            raised = [s for s in walk_stmts(m.node.body) if isinstance(s, ast.Assign) and path_of(s.targets[0]) == "self._promised_ballot" and path_of(s.value) == b and _same_block(m, s, st)]
+            if raised:
+                ok, how = True, "the promise is raised to the accepted ballot in the same step"
+            else:
+                # self-accept: guarded by `ballot >= promised`, and this node promised that ballot to itself when it started phase 1
+                ff = ctx.flow(m)
+                g, _why = _guarded_not_below(ctx, m, st, "self._promised_ballot", st.value)
+                sp1 = prog.func(PAX, "PaxosNode.start_phase1")
+                selfp = [k for k in calls_in(sp1.node) if path_of(k.func) == "self._handle_prepare_internal" and [path_of(a) for a in k.args] == ["ballot"]]
+                cur = stmts_matching(sp1, "ballot = self._current_ballot")
+                hpi = prog.func(PAX, "PaxosNode._handle_prepare_internal")
+                hf = ctx.flow(hpi)
+                pw = [s for s in walk_stmts(hpi.node.body) if isinstance(s, ast.Assign) and path_of(s.targets[0]) == "self._promised_ballot" and path_of(s.value) == "ballot"]
+                tally = [k for k in calls_in(hpi.node) if isinstance(k.func, ast.Attribute) and k.func.attr == "append" and "self._phase1_responses" in unparse(k.func.value)]
+                # the self-promise is tallied only when it was actually made
+                okt = len(pw) == 1 and len(tally) == 1 and not always_before(ctx, hpi, lambda x: x.ast is pw[0], lambda x: x is node_of(hf.cfg, tally[0]))
+                own = [s2 for s2 in walk_stmts(m.node.body) if isinstance(s2, ast.Assign) and path_of(s2.targets[0]) == b and isinstance(s2.value, ast.Call) and path_of(s2.value.func) == "Ballot"
+                       and len(s2.value.args) == 2 and path_of(s2.value.args[1]) == "self.name"]
+                ok = bool(g) and len(own) == 1 and len(selfp) == 1 and len(cur) == 1 and okt
+                how = "self-accept under `ballot >= promised`, the ballot having been self-promised in start_phase1 (and tallied only if promised)"
+            ctx.ob("C12-3", "G2", m, st, ok, f"PaxosNode.{m.name}: after accepting a ballot the promise is not below it, so a delayed lower-ballot Accept cannot overwrite the accepted value — {how}")
+    need(n_acc >= 2, f"C12-3: expected >= 2 accept sites in PaxosNode, found {n_acc}")
+    # accept tally
+    n_t = 0
+    for m in c.methods.values():
+        if m.name == "__init__":
+            continue
+        for st in walk_stmts(m.node.body):
+            tgt = st.targets[0] if isinstance(st, ast.Assign) else st.target if isinstance(st, ast.AugAssign) else None
+            if tgt is None or not (isinstance(tgt, ast.Subscript) and path_of(tgt.value) == "self._phase2_responses"):
+                continue
+            n_t += 1
+            if isinstance(st, ast.Assign) and isinstance(st.value, ast.Constant) and st.value.value == 0:
+                continue
+            if isinstance(st, ast.AugAssign):
+                ok = m.name == "_handle_accepted" and isinstance(st.op, ast.Add) and isinstance(st.value, ast.Constant) and st.value.value == 1
+                ctx.ob("C12-6", "G2", m, st, ok, "the accept tally grows by one per PaxosAccepted message and nowhere else")
+            else:
+                acc = [s for s in walk_stmts(m.node.body) if isinstance(s, ast.Assign) and path_of(s.targets[0]) == "self._accepted_ballot" and _same_block(m, s, st)]
+                ok = isinstance(st.value, ast.Constant) and st.value.value == 1 and len(acc) == 1
+                ctx.ob("C12-6", "G2", m, st, ok, "the proposer counts itself in the accept tally only in the step in which it actually accepted its own ballot")
+    need(n_t >= 4, f"C12-6: expected >= 4 writes of the accept tally, found {n_t}")
+    # ballot pairs: `<p>_number` and `<p>_node` of one record stay together
+    n_pairs = 0
+    for rel in (PAX, MP, FP):
+        for fn in prog.module(rel).all_functions:
+            for n in walk_scope(fn.node):
+                elts = n.elts if isinstance(n, ast.Tuple) else n.args if isinstance(n, ast.Call) and path_of(n.func) == "Ballot" else None
+                if not elts or len(elts) != 2:
+                    continue
+                keys = []
+                for e in elts:
+                    k = None
+                    if isinstance(e, ast.Subscript) and isinstance(e.slice, ast.Constant) and isinstance(e.slice.value, str):
+                        k = e.slice.value
+                    elif isinstance(e, ast.Call) and isinstance(e.func, ast.Attribute) and e.func.attr == "get" and e.args and isinstance(e.args[0], ast.Constant) and isinstance(e.args[0].value, str):
+                        k = e.args[0].value
+                    keys.append(k)
+                if keys[0] and keys[1] and keys[0].endswith("_number") and (keys[1].endswith("_node") or keys[1].endswith("_node_id")):
+                    n_pairs += 1
+                    p0 = keys[0][: -len("_number")]
+                    p1 = keys[1].rsplit("_node", 1)[0]
+                    ctx.ob("C12-5", "G7", fn, n, p0 == p1, f"a ballot is rebuilt from the two halves of one record (`{keys[0]}` with `{keys[1]}`): mixing records makes equal-numbered ballots of different proposers compare wrongly")
+    need(n_pairs >= 4, f"C12-5: expected >= 4 ballot reconstructions from message fields, found {n_pairs}")
+
+
 def rule_once_per_ballot(ctx: Ctx) -> None:
     prog = ctx.prog
     for rel, cname, action, quorum in ((PAX, "PaxosNode", "self._start_phase2", "self.quorum_size"), (MP, "MultiPaxosNode", "self._become_leader", "self.quorum_size"),
@@ -330,6 +418,7 @@ def rule_schema(ctx: Ctx) -> None:
 def run(ctx: Ctx) -> None:
     ctx.guarded(rule_ballot_order)
     ctx.guarded(rule_acceptor)
+    ctx.guarded(rule_acceptor_pairing)
     ctx.guarded(rule_once_per_ballot)
     ctx.guarded(rule_phase2_value)
     ctx.guarded(rule_decided)
@@ -340,6 +429,10 @@ def run(ctx: Ctx) -> None:
 
 
 MUTANTS = [
+    ("self-count-without-self-accept", PAX, "            self._accepted_value = chosen_value\n            self._phase2_responses[ballot_number] = 1  # count self", "            self._accepted_value = chosen_value\n        self._phase2_responses[ballot_number] = 1  # count self", "C12-6"),
+    ("accept-does-not-raise-promise", PAX, "        # Accept\n        self._promised_ballot = ballot\n        self._accepted_ballot = ballot", "        # Accept\n        self._accepted_ballot = ballot", "C12-3"),
+    ("promise-ballot-halves-mixed", PAX, "            accepted_ballot = (metadata[\"accepted_ballot_number\"], metadata[\"accepted_ballot_node\"])", "            accepted_ballot = (metadata[\"accepted_ballot_number\"], metadata[\"ballot_node\"])", "C12-5"),
+    ("self-promise-tallied-unconditionally", PAX, "            # Add to our own phase1 responses\n            if ballot.number in self._phase1_responses:\n                self._phase1_responses[ballot.number].append(response)\n                self._promises_received += 1", "        if ballot.number in self._phase1_responses:\n            self._phase1_responses[ballot.number].append({\"from\": self.name, \"accepted_ballot\": None, \"accepted_value\": None})", "C12-3"),
     ("ballot-order-node-first", PAX, "    number: int\n    node_id: str\n", "    node_id: str\n    number: int\n", "C12-1"),
     ("prepare-promises-lower-ballot", PAX, "        if self._promised_ballot is not None and ballot < self._promised_ballot:\n            # Nack: we've already promised a higher ballot", "        if self._promised_ballot is not None and ballot.number < 0:\n            # Nack: we've already promised a higher ballot", "C12-2"),
     ("accept-below-promise", PAX, "        if self._promised_ballot is not None and ballot < self._promised_ballot:\n            nack = self._network.send(", "        if False:\n            nack = self._network.send(", "C12-2"),
